@@ -315,6 +315,12 @@ protected:
     /** Dirty block file entries. */
     std::set<int> m_dirty_fileinfo;
 
+    /** Undo files other than the current one of a cursor that received undo data
+     * which has not been flushed to disk yet. FlushBlockFile() only covers the
+     * current file, so these are flushed by FlushChainstateBlockFile() before
+     * the block index that refers to the data is written. */
+    std::set<int> m_unflushed_undo_files;
+
 public:
     using Options = kernel::BlockManagerOpts;
     using ReadRawBlockResult = util::Expected<std::vector<std::byte>, ReadRawError>;
